@@ -72,6 +72,8 @@ fn main() {
         "C14" => props::c14::C14,
         "C15" => props::c15::C15,
         "C16" => props::c15::C16,
+        "C17" => props::c17::C17,
+        "C18" => props::c18::C18,
         "C31" => props::small::C31,
         "C32" => props::small::C32,
     );
